@@ -574,8 +574,12 @@ class _CUR(GreedySelector):
         """Initializes the search. Prepares an array to store the selected
         features and computes their initial importance score.
         """
-        self.X_current_ = as_float_array(X.copy())
-        self.pi_ = self._compute_pi(self.X_current_)
+        # the state of an earlier search is only replaced once the scores of the new
+        # data could be computed (an unusable `k` is rejected by the solver)
+        X_current = as_float_array(X.copy())
+        pi = self._compute_pi(X_current)
+        self.X_current_ = X_current
+        self.pi_ = pi
 
         super()._init_greedy_search(X, y, n_to_select)
 
@@ -753,14 +757,16 @@ class _PCovCUR(GreedySelector):
         """Initializes the search. Prepares an array to store the selected
         features and computes their initial importance score.
         """
+        # the state of an earlier search is only replaced once the scores of the new
+        # data could be computed (an unusable `k` is rejected by the solver)
+        X_current = X.copy()
+        y_current = y.copy() if y is not None else None
+        pi = self._compute_pi(X_current, y_current)
         self.X_ref_ = X
         self.y_ref_ = y
-        self.X_current_ = X.copy()
-        if y is not None:
-            self.y_current_ = y.copy()
-        else:
-            self.y_current_ = None
-        self.pi_ = self._compute_pi(self.X_current_, self.y_current_)
+        self.X_current_ = X_current
+        self.y_current_ = y_current
+        self.pi_ = pi
 
         super()._init_greedy_search(X, y, n_to_select)
 
